@@ -69,7 +69,13 @@ impl ProtocolError {
             | Self::RateLimited { .. }
             | Self::ServiceUnavailable
             | Self::Timeout => true,
-            Self::Http(e) => e.is_timeout() || e.is_connect(),
+            // A reqwest error on this path is a transport failure (status codes are
+            // classified separately below): timeouts, refused connections, and connections
+            // the peer dropped before (`is_request`) or inside (`is_body`/`is_decode`) the
+            // response. Like `Network`, all of them are transient.
+            Self::Http(e) => {
+                e.is_timeout() || e.is_connect() || e.is_request() || e.is_body() || e.is_decode()
+            }
             Self::HttpStatus(status) => {
                 matches!(
                     status,
@@ -97,8 +103,9 @@ impl ProtocolError {
             | Self::RateLimited { .. }
             | Self::ServiceUnavailable
             | Self::Timeout => true,
-            // On WASM, is_connect() is not available, only check timeout
-            Self::Http(e) => e.is_timeout(),
+            // On WASM, is_connect() is not available; dropped connections surface as
+            // request/body/decode errors and are transient like on native targets
+            Self::Http(e) => e.is_timeout() || e.is_request() || e.is_body() || e.is_decode(),
             Self::HttpStatus(status) => {
                 matches!(
                     status,
